@@ -78,13 +78,13 @@ Section Node.
   (* add_transaction_to_pool: by-itself, in-state at the head, no shared reference with the pool.
      itself_ok / instate_ok are the validators' verdicts; raises = the validator raised something that is not a
      ValidateTransactionError (it propagates: not admitted, and the offending peer is dropped) *)
-  Definition admit (s : nstate) (t : N) (itself_ok : bool) : bool :=
+  Definition admits (s : nstate) (t : N) (itself_ok : bool) : bool :=
     itself_ok && tx_valid_at (ns_head s) t && negb (existsb (tx_conflict t) (ns_pool s)).
 
   (* handle_transaction_received *)
   Definition handle_tx (s : nstate) (t : N) (itself_ok : bool) : nstate * list out :=
     if existsb (N.eqb t) (ns_pool s) then (s, [])
-    else if admit s t itself_ok then
+    else if admits s t itself_ok then
       (mkNS (ns_blocks s) (ns_head s) (ns_valid_blocks s) (ns_valid_head s) (ns_pool s ++ [t]) (ns_buffer s)
             (ns_rows s), [ORelayTx t])
     else (s, []).
